@@ -17,7 +17,9 @@ from p11mc import world as W, fixtures as F
 from p11mc.p11 import Out, mech
 
 KEYS = {"rsa_aa": ("rsa1024_priv", True), "ec_aa": ("ec256_priv", True), "rsa_plain": ("rsa1024_priv", False)}
-INITS = [("sinit", 0, "rsa_aa", "sha256-rsa"), ("sinit", 0, "ec_aa", "ecdsa"), ("sinit", 0, "rsa_plain", "rsa-pkcs"), ("dinit", 0, "rsa_aa", "rsa-pkcs"), ("sinit", 1, "rsa_aa", "rsa-pkcs")]
+INITS = [("sinit", 0, "rsa_aa", "sha256-rsa"), ("sinit", 0, "ec_aa", "ecdsa"), ("sinit", 0, "rsa_plain", "rsa-pkcs"), ("dinit", 0, "rsa_aa", "rsa-pkcs"), ("sinit", 1, "rsa_aa", "rsa-pkcs"),
+         # Inits that must FAIL on an always-authenticate key (mechanism of another key type): a failed Init must not leave a re-authentication request behind
+         ("sinit", 0, "rsa_aa", "ecdsa"), ("sinit", 0, "ec_aa", "rsa-pkcs")]
 MECH = {"sha256-rsa": lambda: mech(C.CKM_SHA256_RSA_PKCS), "ecdsa": lambda: mech(C.CKM_ECDSA), "rsa-pkcs": lambda: mech(C.CKM_RSA_PKCS)}
 OPS = [("sign", 0), ("supdate", 0), ("sfinal", 0), ("decrypt", 0), ("sign", 1)]
 LOGINS = [("ctx", 0, "right"), ("ctx", 0, "wrong"), ("ctx", 0, "so"), ("ctx", 1, "right")]
@@ -52,13 +54,14 @@ class C07AA(CheckBase):
         ss = [W.ok(p.OpenSession(world["slots"]["A"]), "open")["h"] for _ in (0, 1, 2)]      # the third session only looks keys up
         W.ok(p.Login(ss[0], C.CKU_USER, W.USER_A), "login")
         # model: sessions, per session op = None | dict(kind, aa, authed)
-        return {"s": ss, "op": [None, None]}
+        # certain[si]: the model knows whether an operation is active in that session (lost after an error of unknown consequence, regained by a successful Init)
+        return {"s": ss, "op": [None, None], "certain": [True, True]}
 
     def actions(self, m):
         return INITS + OPS + LOGINS + MISC
 
     def key(self, ctx, m):
-        return repr(m["op"])
+        return repr((m["op"], m["certain"]))
 
     def step(self, ctx, m, a):
         p = ctx.p
@@ -73,7 +76,10 @@ class C07AA(CheckBase):
                 if m["op"][si] is not None:
                     ctx.count("init-accepted-while-model-holds-an-operation")
                 m["op"][si] = {"kind": kind[0], "aa": KEYS[keyname][1], "authed": False, "mech": mname}
+                m["certain"][si] = True
                 ctx.count("init-ok")
+            elif r["rv"] == C.CKR_OPERATION_ACTIVE and m["op"][si] is None:
+                m["certain"][si] = False
             return m
         if kind in ("sign", "supdate", "sfinal", "decrypt"):
             si = a[1]
@@ -91,6 +97,8 @@ class C07AA(CheckBase):
                 if r["rv"] == C.CKR_OK:
                     ctx.count("output-plain-key-or-unmodelled")
                 return m                 # a call of the other kind does not touch the modelled operation
+            if r["rv"] == C.CKR_USER_NOT_LOGGED_IN and op is not None and not op["aa"]:
+                raise Violation("C07|aa|%s|ordinary-key-operation-refused-for-missing-context-specific-login|%s" % (kind, op["mech"]), {})
             if r["rv"] == C.CKR_OK:
                 if op is not None and op["aa"] and not op["authed"] and kind == "supdate":
                     ctx.count("update-accepted-before-login (no output yet, not judged)")
@@ -101,6 +109,8 @@ class C07AA(CheckBase):
                 pass                     # operation continues
             elif r["rv"] != C.CKR_BUFFER_TOO_SMALL:
                 m["op"][si] = None       # success, or an error that ends the operation (the automaton itself is C12's subject)
+                if r["rv"] not in (C.CKR_OK, C.CKR_USER_NOT_LOGGED_IN):     # (CKR_OPERATION_NOT_INITIALIZED is also the answer to a multi-part call on a single-part operation, which stays)
+                    m["certain"][si] = False
             return m
         if kind == "ctx":
             _k, si, which = a
@@ -110,6 +120,11 @@ class C07AA(CheckBase):
             if r["rv"] == C.CKR_OK:
                 if which != "right":
                     raise Violation("C07|aa|context-specific-login-accepted-%s-pin" % which, {})
+                if op is None or not op["aa"] or op["authed"]:
+                    # nothing is waiting for it.  (The model forgets an operation only on evidence that it ended; "op is None" after a failed call of the
+                    # other kind is impossible because such calls leave the model alone.)
+                    if m["certain"][si]:
+                        raise Violation("C07|aa|context-specific-login-accepted-although-no-operation-waits-for-it", {"model_op": repr(op)})
                 if op is not None:
                     op["authed"] = True
                 ctx.count("context-login-ok")
